@@ -53,11 +53,13 @@ Definition is_hex (c : N) : bool := n_in 48 57 c || n_in 97 102 c || n_in 65 70 
 Definition is_bin (c : N) : bool := n_in 48 49 c.
 
 (* suffix -> (unsigned?, number of l's); l/L and ll/LL may not mix cases; u on either side *)
+Definition is_l (c : N) := N.eqb c 108.
+Definition is_L (c : N) := N.eqb c 76.
 Definition long_part (s : text) : option Z :=
   match s with
   | [] => Some 0
-  | [108%N] | [76%N] => Some 1
-  | [108%N; 108%N] | [76%N; 76%N] => Some 2
+  | [a] => if (is_l a || is_L a)%bool then Some 1 else None
+  | [a; b] => if ((is_l a && is_l b) || (is_L a && is_L b))%bool then Some 2 else None
   | _ => None
   end.
 Definition parse_suffix (s : text) : option (bool * Z) :=
